@@ -185,6 +185,10 @@ def run_hist(spec, ctx):
         ctx.case({"part": "hist", "c": c})
         f = hist_body(ctx, c)
         ctx.label("strict" if c["strict"] else "free")
+        if getattr(f, "followups", 0):
+            ctx.label("history-with-sends-from-inside-callbacks")
+        if getattr(f, "burst", 0):
+            ctx.label("history-with-burst-of-%s-messages" % ("more-than-256" if f.burst > 256 else "up-to-256"))
         for k in lost_guaranteed(f):
             ctx.label("lost-guaranteed/" + k[0])
             ctx.nt((k, c["mtu"], c["link"]["loss"], len(c["link"]["outages"]), c["seed"]))
